@@ -34,13 +34,18 @@ def main():
                                env=dict(os.environ, HV_REPO=target))
             keys = sorted({l.strip()[4:] for l in r.stdout.splitlines() if l.strip().startswith("key=")})
             fired = f"VIOLATION property={prop}" in r.stdout
-            rows.append((sid, prop, "fired" if fired else f"MISSED(exit={r.returncode})", keys[:6]))
-            print(f"{sid:8s} {prop} {'fired ' if fired else 'MISSED'} exit={r.returncode} {keys[:4]}", flush=True)
+            import re
+            m = re.search(r"violations=(\d+)", r.stdout)
+            nviol = int(m.group(1)) if m else -1   # number of cases (not keys) that reported: 1-2 means a marginal detection
+            rows.append((sid, prop, "fired" if fired else f"MISSED(exit={r.returncode})", keys[:6], nviol))
+            print(f"{sid:8s} {prop} {'fired ' if fired else 'MISSED'} exit={r.returncode} cases={nviol} {keys[:4]}", flush=True)
         finally:
             shutil.rmtree(target, ignore_errors=True)
     n = len(rows)
     ok = sum(1 for r in rows if r[2] == "fired")
-    print(f"\n{ok}/{n} caught by the quick check of their own property; others: {[(r[0], r[2]) for r in rows if r[2] != 'fired']}")
+    print(f"\n{ok}/{n} caught by the quick check of their own property (VERIF_SEED={os.environ.get('VERIF_SEED', '0')}); "
+          f"others: {[(r[0], r[2]) for r in rows if r[2] != 'fired']}")
+    print("marginal (reported by <= 2 cases):", [(r[0], r[4]) for r in rows if r[2] == "fired" and len(r) > 4 and 0 <= r[4] <= 2])
 
 
 if __name__ == "__main__":
